@@ -203,7 +203,10 @@ def gen_basis(rng, T, tier):
             if bt.startswith('th-') and rng.random() < .15:
                 kw['truncation_tolerance'] = float(rng.choice([0., 1e-14]))
             return dict(btype=bt, kwargs=kw)
-        bt = str(rng.choice(['spline', 'std', 'discont', 'legendre', 'lagrange', 'bernstein'], p=[.56, .12, .08, .06, .09, .09]))
+        if 'boundary' in T.kind:
+            bt = str(rng.choice(['spline', 'std', 'discont', 'legendre', 'lagrange', 'bernstein'], p=[.45, .25, .1, .04, .08, .08]))
+        else:
+            bt = str(rng.choice(['spline', 'std', 'discont', 'legendre', 'lagrange', 'bernstein'], p=[.56, .12, .08, .06, .09, .09]))
         if bt in ('spline', 'std'):
             return dict(btype=bt, kwargs=gen_spline_kwargs(rng, shape, periodic, std=(bt == 'std'), maxdeg=4 if not T.trimmed else 3))
         if bt == 'legendre':
@@ -219,6 +222,10 @@ def gen_basis(rng, T, tier):
                             p=[.3, .25, .08, .08, .08, .08, .05, .04, .04]))
         lo = 0 if 'discont' in bt else 1
         return dict(btype=bt, kwargs=dict(degree=_deg(rng, lo, 3 if T.nd < 3 else 2)))
+    if T.kind.endswith('boundary-all'):
+        # union of the sides of a structured mesh: only element-local constructors are reachable
+        bt = str(rng.choice(['discont', 'std'], p=[.7, .3]))
+        return dict(btype=bt, kwargs=dict(degree=_deg(rng, 0 if bt == 'discont' else 1, 3)), expect_refusal=(bt == 'std'))
     simplex = T.simplices is not None
     names = ['std', 'lagrange', 'bernstein', 'discont', 'bubble', 'spline']
     bt = str(rng.choice(names, p=[.3, .15, .15, .15, .15, .1]))
